@@ -831,6 +831,13 @@ func (fc *FnCtx) applyOnCall(st *State, oc *OnCall, c *ast.CallExpr, args []Val,
 	for _, u := range upds {
 		st.ghost[u.name] = fc.nameVal(u.v, "g_"+u.name)
 	}
+	if !oc.NoHavoc {
+		// sound default: besides its declared ghost effects the callee may change any object field that is not
+		// declared stable, and any byte region
+		fc.havocObjects(st, true)
+		fc.havocHeap(st, nil)
+		fc.havocEscaped(st)
+	}
 	for _, cl := range oc.Ensures {
 		t := fc.specBool(st, cl.Expr, &specEnv{fc: fc, st: st, old: pre, bind: bind, at: c.Pos(), scopeNode: c})
 		fc.assume(st, t)
